@@ -667,6 +667,29 @@ func C04(e *Env) {
 		}
 		mutated = append(mutated, hcase{Family: "mutated-session", Name: fmt.Sprintf("#%d", i), Streams: [][]byte{mutate(rng, s)}})
 	}
+	var bursts []hcase
+	for i := 0; i < e.Pick(30, 300); i++ {
+		var ss [][]byte
+		for k := 0; k < 40+rng.Intn(80); k++ {
+			switch rng.Intn(3) {
+			case 0:
+				ss = append(ss, randBytes(rng, 1+rng.Intn(300)))
+			case 1:
+				var s []byte
+				for _, q := range c04ValidSession(rng) {
+					s = append(s, q.Bytes()...)
+				}
+				ss = append(ss, mutate(rng, s))
+			default:
+				var s []byte
+				for _, q := range c04ValidSession(rng) {
+					s = append(s, q.Bytes()...)
+				}
+				ss = append(ss, s)
+			}
+		}
+		bursts = append(bursts, hcase{Family: "burst", Name: fmt.Sprintf("%d simultaneous connections #%d", len(ss), i), Streams: ss})
+	}
 	hostile := c04Hostile()
 	geometry := c04Geometry(rng, e.Pick(600, 12000))
 
@@ -687,6 +710,7 @@ func C04(e *Env) {
 		{"geometry-1000", geometry[len(geometry)/3 : 2*len(geometry)/3], worker.Config{Root: root, BufSize: 1000}, cap8g},
 		{"geometry-unpooled", geometry[2*len(geometry)/3:], worker.Config{Root: root, BufSize: 0}, cap8g},
 		{"streams", streams, worker.Config{Root: root, AllowWrite: true, BufSize: 65536}, cap8g},
+		{"bursts", bursts, worker.Config{Root: root, AllowWrite: true, BufSize: 65536}, cap8g},
 		{"mutated", mutated, worker.Config{Root: root, AllowWrite: true, BufSize: 2048}, cap8g},
 	}
 	var wg sync.WaitGroup
@@ -703,7 +727,7 @@ func C04(e *Env) {
 			deaths := 0
 			for _, c := range pl.cases {
 				cls := c.Name
-				if c.Family == "random-stream" || c.Family == "mutated-session" || c.Family == "geometry" {
+				if c.Family == "random-stream" || c.Family == "mutated-session" || c.Family == "geometry" || c.Family == "burst" {
 					cls = strings.SplitN(c.Name, " #", 2)[0]
 				}
 				run.Sig("%s: %s", c.Family, trim40(cls))
